@@ -92,7 +92,7 @@ Definition enc_table (ls : list lvl_t) : list Z := concat (map enc_lvl_entry ls)
 
 Definition enc_index (p : period_t) : list Z :=
   p_time p ++ fmtI 2 0 ++ p_grid p ++ indx ++ fmtI 4 0 ++ zero_e14 ++ zero_e14
-  ++ p_fixed p ++ fmtI 3 (p_nx p) ++ fmtI 3 (p_ny p) ++ fmtI 3 (lenZ (p_levels p))
+  ++ p_fixed p ++ fmtI 3 (p_nx p mod 1000) ++ fmtI 3 (p_ny p mod 1000) ++ fmtI 3 (lenZ (p_levels p))
   ++ p_vsys2 p ++ fmtI 4 (lenh p)
   ++ enc_table (p_levels p) ++ p_pad p.
 
@@ -109,6 +109,14 @@ Definition enc_period (p : period_t) : list Z :=
   enc_index p ++ enc_lvls (p_time p) (p_grid p) 0 (p_levels p).
 Definition enc (ps : list period_t) : list Z := concat (map enc_period ps).
 
+(* Grids with 1000 or more points in a direction: the I3 fields NX, NY hold the number modulo
+   1000 and the two characters of the grid id hold the thousands as letters, CHAR(64 + n/1000)
+   ('@' = none, 'A' = 1000, ...); ordinary grid ids (digits, blanks) are below '@'. *)
+Definition grid_thousands (g : Z) : Z := Z.max 0 ((g - 64) * 1000).
+Definition grid_ok (p : period_t) : bool :=
+  (grid_thousands (nth 0 (p_grid p) 0) =? 1000 * (p_nx p / 1000))
+  && (grid_thousands (nth 1 (p_grid p) 0) =? 1000 * (p_ny p / 1000)).
+
 (* ---- well-formed content (the domain of the encoder) ----------------------------------- *)
 Definition len_is {A} (n : nat) (l : list A) : bool := Nat.eqb (length l) n.
 Definition wf_var (nc : Z) (v : var_t) : bool :=
@@ -119,7 +127,8 @@ Definition wf_lvl (nc : Z) (l : lvl_t) : bool :=
   len_is 6 (l_text l) && (nvars l <=? 99) && forallb (wf_var nc) (l_vars l).
 Definition wf_period (p : period_t) : bool :=
   len_is 10 (p_time p) && len_is 2 (p_grid p) && len_is 93 (p_fixed p) && len_is 2 (p_vsys2 p)
-  && (0 <=? p_nx p) && (p_nx p <=? 999) && (0 <=? p_ny p) && (p_ny p <=? 999)
+  && (0 <=? p_nx p) && (p_nx p <=? 26999) && (0 <=? p_ny p) && (p_ny p <=? 26999)
+  && grid_ok p
   && (lenZ (p_levels p) <=? 99) && (lenh p <=? 9999)
   && (lenh p <=? ncell p)                       (* the header fits into the index record *)
   && (lenZ (p_pad p) =? ncell p - lenh p)
@@ -175,9 +184,11 @@ Definition dec_period (bs : list Z) : option (period_t * list Z) :=
   do (ix, r4) <- take 4 r3; do _ <- guard (zlist_eqb ix indx);
   do (_, r5) <- take 32 r4;                         (* Z1, MB1, MB2: unused in an index label *)
   do (fixed, r6) <- take 93 r5;
-  do (nx, r7) <- takeI 3 r6; do (ny, r8) <- takeI 3 r7; do (nz, r9) <- takeI 3 r8;
+  do (nx3, r7) <- takeI 3 r6; do (ny3, r8) <- takeI 3 r7; do (nz, r9) <- takeI 3 r8;
   do (vs2, r10) <- take 2 r9; do (lh, r11) <- takeI 4 r10;
-  do _ <- guard ((0 <=? nz) && (0 <=? nx) && (0 <=? ny));
+  do _ <- guard ((0 <=? nz) && (0 <=? nx3) && (0 <=? ny3));
+  let nx := nx3 + grid_thousands (nth 0 grid 0) in
+  let ny := ny3 + grid_thousands (nth 1 grid 0) in
   do (tbl, r12) <- dec_table (Z.to_nat nz) r11;
   do _ <- guard ((lh =? 108 + tbl_len tbl) && (lh <=? nx * ny));
   do (pad, r13) <- take (Z.to_nat (nx * ny - lh)) r12;
@@ -352,11 +363,9 @@ Definition spec_view (ps : list period_t) : option libview :=
   end.
 
 (* the domain on which the library is expected to read a spec file: at least 2x2 cells (the
-   lat-lon cell-edge code needs one neighbour difference per axis), grid id without the
-   thousands letter, level heights that float() accepts, no key shared between the surface
+   lat-lon cell-edge code needs one neighbour difference per axis), level heights that float() accepts, no key shared between the surface
    level and the upper levels *)
-Definition lib_grid_ok (p : period_t) : bool :=
-  (2 <=? p_nx p) && (2 <=? p_ny p) && (nth 0 (p_grid p) 0 <=? 64) && (nth 1 (p_grid p) 0 <=? 64).
+Definition lib_grid_ok (p : period_t) : bool := (2 <=? p_nx p) && (2 <=? p_ny p).
 Definition lvl_texts_ok (p : period_t) : bool :=
   forallb (fun l => float_ok (l_text l) && negb (blank (l_text l))) (p_levels p).
 Definition keys_disjoint (p : period_t) : bool :=
@@ -431,4 +440,6 @@ Definition wf_wperiod (nx ny : Z) (p : wperiod) : bool :=
 Definition wf_winput (w : winput) : bool :=
   len_is 2 (wi_grid w) && len_is 93 (wi_fixed w) && len_is 2 (wi_vsys2 w)
   && (0 <=? wi_nx w) && (wi_nx w <=? 999) && (0 <=? wi_ny w) && (wi_ny w <=? 999)
+  (* the writer writes NX, NY with '%3d' and copies the grid id: grids below 1000 x 1000 only *)
+  && (nth 0 (wi_grid w) 0 <=? 64) && (nth 1 (wi_grid w) 0 <=? 64)
   && forallb (wf_wperiod (wi_nx w) (wi_ny w)) (wi_periods w).
